@@ -80,7 +80,10 @@ if [ "$TIER" = "thorough" ] && [ -z "${VERIF_REPLAY_KEY:-}" ]; then
   export GOCOVERDIR="$COVDIR"
 fi
 BIN="$HERE/bin/check.$TAG${RACE:+.race}${COVER:+.cover}"
-( cd "$HERE/harness" && go build $RACE $COVER -tags verif -modfile="$MODFILE" -o "$BIN.$$" ./cmd/check && mv "$BIN.$$" "$BIN" ) || {
+build() { ( cd "$HERE/harness" && go build $RACE $COVER -tags verif -modfile="$MODFILE" -o "$BIN.$$" ./cmd/check && mv "$BIN.$$" "$BIN" ); }
+# (one retry: a build can fail transiently when other Go builds on the machine
+# are rewriting the shared build cache at the same moment)
+build || { sleep 3; sed "s#=> /repo#=> $REPO#" "$HERE/harness/go.mod" > "$MODFILE.tmp.$$" && mv "$MODFILE.tmp.$$" "$MODFILE"; build; } || {
   echo "harness build failed against $REPO" >&2; rm -f "$BIN.$$"; exit 2; }
 "$BIN" "$ID" "$TIER"
 RC=$?
